@@ -48,9 +48,7 @@
      (reachable state, no target on an open in-scope unflagged ground branch within the limit ⇒ the canonical structure is a
      countermodel).
    * (3) progress "an enabled target is a legal step": `target_legal_closure` (side condition `closureMonoB L`, all 57 logics
-     pass), `target_legal_frame`, `target_legal_quit` are proved; NOT proved for `Step.rule` targets of table rules (needs a
-     decidable totality condition on the regenerated templates; quantifier shapes excluded).  Until then "the model never
-     offers an illegal step" is checked at run time (`reject … illegal-step` in the driver answer) on every real step.
+     pass), `target_legal_frame`, `target_legal_quit`, and (fifth increment) `target_legal_table` / `search_progress`, see below.
    * (4) `search_terminates_prop` / `search_run_replayFresh`: in a logic without access rules every run of the search model on a
      propositional argument is a `replayFresh` run (no re-application to a ticked node, no quit-flag step), hence has at most
      `termBound L W arg` rule applications under every schedule and never a quit flag — `C03_terminates_partial` tied to the
@@ -64,8 +62,17 @@
      instance): `invq_check_sound : invBadQ L s = [] → InvQ L s`, and (2-FO) `completed_is_saturated_fo` /
      `completed_is_saturated_fo_checked`: `Inv` + `InvQ`, no targets, no quit flag, within the world AND constant limits, a branch
      with quantifier nodes has a constant, identity substitution idle ⇒ `L.saturatedB b = true` (side conditions `searchSideB`,
-     `quantTicksB`; all 57 logics pass).  NOT proved: `InvQ` of the initial state and its preservation (run-time `invBadQ` on
-     every state of every real run stands in); `InScope`-free statements still exclude `IdentityIndiscernability`.
+     `quantTicksB`; all 57 logics pass).  `InvQ` is now PROVED along every run, no side condition: `invq_init_trunk`, `invq_step_search`,
+     `invq_step_apply(_closure/_frame/_table)`, `invq_step`, `invq_reachable : Reach L arg s → InvQ L s` (Ptx/Proofs/SearchQStep.lean:
+     `updNcs_spec` characterises `NodeConsts.after_node_add`; `QInv.afterApply` the discard).  `search_completed_saturated_fo`:
+     reachable, no targets, no flag, within the world and constant limits, identity substitution idle ⇒ `Deriv`, `b ∈ s.tab`,
+     `saturatedB` — first-order branches included.  Two hypotheses are properties of the BRANCH alone and can only fail with
+     vacuous quantification (`TickedQ`, Boolean `ckTickedQ`; a branch with quantifier nodes has a constant).  Per logic
+     (Ptx/Gen/ObH_<L>.lean): `<L>_search_side_fo`, `<L>_completed_is_saturated_fo`, `<L>_search_completed_countermodel_fo`.
+     Only `IdentityIndiscernability` remains outside the model.
+   * (3) PROGRESS: `target_legal_table` (rows passing the decidable totality condition `rowOKB`; `templatesOKB L` for all 57
+     logics) and `search_progress`: in every reachable state every enabled target of the closure group, an access rule or a
+     non-quantifier table rule can be applied.  Exempt: quantifier rows (freshness of `nextConst` not proved).
    Examples use a hand-built logic (`miniS`), so a broken generated logic cannot break this file.
 -/
 import Ptx.Proofs.SearchInv
@@ -75,6 +82,8 @@ import Ptx.Proofs.SearchApply
 import Ptx.Proofs.SearchLegal
 import Ptx.Proofs.SearchQ
 import Ptx.Proofs.SearchTerm
+import Ptx.Proofs.SearchQStep
+import Ptx.Proofs.SearchLegalT
 namespace Ptx.Props.Search
 open Ptx Ptx.Search
 
@@ -131,7 +140,7 @@ theorem search_run_replayFresh (L : LogicData) (W : Weights) (hfr : L.frameRules
     nodes but no constant at all (vacuous quantification only — the parser rejects such sentences). -/
 theorem completed_is_saturated_fo (L : LogicData) (hside : searchSideB L = true) (hqt : quantTicksB L = true)
     (s : SState) (hinv : Inv L s) (hinvq : InvQ L s) (bi : Nat) (b : Branch) (hb : s.tab[bi]? = some b) (hopen : b.closed = false)
-    (hnone : ∀ r : RuleId, targets L s r bi = [])
+    (htq : TickedQ L b) (hnone : ∀ r : RuleId, targets L s r bi = [])
     (hq : b.hasQuit = false) (hlim : exceeded s.maxWorlds b = false)
     (hclim : ∀ w, constExceeded s.maxConsts b w = false)
     (hcl : b.constList ≠ [] ∨ ∀ sn d w r whole l0, Node.sent sn d w ∈ b.nodes → L.ruleFor sn d = some (r, whole, l0) →
@@ -144,7 +153,73 @@ theorem completed_is_saturated_fo (L : LogicData) (hside : searchSideB L = true)
         rcases Bool.or_eq_true_iff.1 hside.1.2 with h | h
         · exact Or.inl h
         · exact Or.inr (by simpa using h))
-      hinv hinvq hb hopen hnone hq hlim hclim hcl hident)
+      hinv hinvq htq hb hopen hnone hq hlim hclim hcl hident)
+
+/-! #### the quantifier layer `InvQ` along every run (no side condition on the logic) -/
+
+/-- (1a-Q) after `build_trunk`, for every trunk — in particular `trunk L arg` -/
+theorem invq_init_trunk (L : LogicData) (arg : Argument) (b : Branch) (_hb : b ∈ trunk L arg) : InvQ L (SState.init L b.nodes) :=
+  invq_init L b.nodes
+
+/-- (1b-Q) `Ev.search` (gc / release do not touch `NodeConsts`) -/
+theorem invq_step_search (L : LogicData) (s s' : SState) (hq : InvQ L s) (r : RuleId) (bi : Nat)
+    (h : stepEv L s (.search r bi) = some s') : InvQ L s' := by
+  simp only [stepEv, Option.some.injEq] at h
+  subst h
+  exact invq_search hq r bi
+
+/-- (1b-Q) `Ev.apply` of ANY rule and step kind — closure (`invq_step_apply_closure`), access rules (`_frame`), table rules plain /
+    branching / each-world / new-world / new-constant / each-constant (`_table`: `NodeConsts.after_node_add` registers and
+    distributes on every appended node of every resulting branch, `after_apply` discards the applied constant, whose instance
+    the step has just put on the branch), quit flags -/
+theorem invq_step_apply (L : LogicData) (s s' : SState) (hinv : Inv L s) (hq : InvQ L s) (r : RuleId) (st : Step)
+    (h : stepEv L s (.apply r st) = some s') : InvQ L s' :=
+  invq_stepEv hinv hq (.apply r st) h
+theorem invq_step_apply_closure (L : LogicData) (s s' : SState) (hinv : Inv L s) (hq : InvQ L s) (st : Step)
+    (h : stepEv L s (.apply .closure st) = some s') : InvQ L s' := invq_stepEv hinv hq _ h
+theorem invq_step_apply_frame (L : LogicData) (s s' : SState) (hinv : Inv L s) (hq : InvQ L s) (fr : FrameRule) (st : Step)
+    (h : stepEv L s (.apply (.frame fr) st) = some s') : InvQ L s' := invq_stepEv hinv hq _ h
+theorem invq_step_apply_table (L : LogicData) (s s' : SState) (hinv : Inv L s) (hq : InvQ L s) (k : RuleKey) (st : Step)
+    (h : stepEv L s (.apply (.table k) st) = some s') : InvQ L s' := invq_stepEv hinv hq _ h
+
+/-- (1b-Q) ALL events -/
+theorem invq_step (L : LogicData) (s s' : SState) (hinv : Inv L s) (hq : InvQ L s) (e : Ev)
+    (h : stepEv L s e = some s') : InvQ L s' :=
+  invq_stepEv hinv hq e h
+
+/-- (1-Q) the quantifier layer holds in every reachable state -/
+theorem invq_reachable (L : LogicData) (arg : Argument) (s : SState) (h : Reach L arg s) : InvQ L s :=
+  (reach_inv' h).2
+
+/-- (1) + (2-FO) + (3'): in EVERY reachable state of the search model, an open branch on which no rule has a target, without
+    quit flag, within the world limit and the constant limit, with identity substitution idle, is a saturated branch of a tableau
+    derived from the trunk — first-order branches included.  `htq` (`TickedQ`, a property of the branch alone: a ticked
+    new-constant node has its instance for a constant OF THE BRANCH) and `hcl` (a branch with quantifier nodes has a constant)
+    can only fail with vacuous quantification; `ckTickedQ L b` is the Boolean form. -/
+theorem search_completed_saturated_fo (L : LogicData) (hside : searchSideB L = true) (hqt : quantTicksB L = true)
+    (arg : Argument) (s : SState) (hr : Reach L arg s) (bi : Nat) (b : Branch) (hb : s.tab[bi]? = some b)
+    (hopen : b.closed = false) (htq : TickedQ L b) (hnone : ∀ r : RuleId, targets L s r bi = [])
+    (hq : b.hasQuit = false) (hlim : exceeded s.maxWorlds b = false)
+    (hclim : ∀ w, constExceeded s.maxConsts b w = false)
+    (hcl : b.constList ≠ [] ∨ ∀ sn d w r whole l0, Node.sent sn d w ∈ b.nodes → L.ruleFor sn d = some (r, whole, l0) →
+      r.witness ≠ .newConst ∧ r.witness ≠ .eachConst)
+    (hident : L.identMissing b = []) :
+    Deriv L (trunk L arg) s.tab ∧ b ∈ s.tab ∧ L.saturatedB b = true :=
+  ⟨reach_deriv hr, List.mem_of_getElem? hb,
+   completed_is_saturated_fo L hside hqt s (reach_inv' hr).1 (invq_reachable L arg s hr) bi b hb hopen htq hnone hq
+     hlim hclim hcl hident⟩
+
+/-- `TickedQ` from its Boolean form -/
+theorem tickedQ_of_B (L : LogicData) (b : Branch) (h : ckTickedQ L b = true) : TickedQ L b := by
+  intro i hi sn d w r whole l0 hn hrf hw
+  simp only [ckTickedQ, List.all_eq_true] at h
+  have := h i hi
+  simp only [hn, hrf, hw, beq_self_eq_true, Bool.not_true, Bool.false_or, Bool.or_eq_true, List.isEmpty_iff,
+    List.any_eq_true] at this
+  rcases this with (h5 | h5) | h5
+  · exact Or.inl h5
+  · exact Or.inr (Or.inl h5)
+  · exact Or.inr (Or.inr h5)
 
 /-- soundness of the run-time check of the quantifier layer (`invBadQ`, evaluated by the driver next to `invBad`) -/
 theorem invq_check_sound (L : LogicData) (s : SState) (h : invBadQ L s = []) : InvQ L s := invQ_of_invBadQ h
@@ -156,7 +231,8 @@ theorem completed_is_saturated_fo_checked (L : LogicData) (hside : searchSideB L
     (hq : b.hasQuit = false) (hlim : exceeded s.maxWorlds b = false)
     (hclim : ∀ w, constExceeded s.maxConsts b w = false) (hcl : b.constList ≠ [])
     (hident : L.identMissing b = []) : L.saturatedB b = true :=
-  completed_is_saturated_fo L hside hqt s (inv_of_invBad hchk) (invQ_of_invBadQ hchkq) bi b hb hopen (noTargets_of_B hnone)
+  completed_is_saturated_fo L hside hqt s (inv_of_invBad hchk) (invQ_of_invBadQ hchkq) bi b hb hopen
+    (tickedQ_of_invBadQ hchkq hb hopen (inv_of_invBad hchk).len) (noTargets_of_B hnone)
     hq hlim hclim (Or.inl hcl) hident
 
 /-- (1'), soundness of the run-time check: a state on which the driver's `invBad` reports nothing satisfies `Inv`. -/
@@ -297,6 +373,23 @@ theorem target_legal_quit (L : LogicData) (s : SState) (r : RuleId) (bi : Nat) (
     (hm : Step.quit bi "quit" tick ∈ targets L s r bi) : ∃ t', applyStep L s.tab (.quit bi "quit" tick) = some t' :=
   Ptx.Search.target_legal_quit hm rfl rfl
 
+/-- (3c–f) `Step.rule` / quit targets of a table rule are legal when the rule's row passes the decidable totality condition `rowOKB`
+    (non-quantifier shape, witness none / new world / each world, every template instantiates; `templatesOKB L` says so for every
+    such row of the logic: `rowOK_of_templates`) -/
+theorem target_legal_table (L : LogicData) (s : SState) (hinv : Inv L s) (bi : Nat) (k : RuleKey)
+    (hrow : ∀ rl, L.rule? k = some rl → rowOKB L k rl = true) (st : Step) (hm : st ∈ targets L s (.table k) bi) :
+    ∃ t', applyStep L s.tab st = some t' :=
+  (Ptx.Search.target_legal_table hinv hrow hm).2
+
+/-- (3) PROGRESS: in every reachable state every enabled target of the closure group, of an access rule, or of a table rule
+    whose row passes `rowOKB` can be applied (`stepEv … = some _`): the search model never offers an illegal step.  (Quantifier
+    rows are exempt: their targets need the freshness of `nextConst`, not proved here.) -/
+theorem search_progress (L : LogicData) (hmono : closureMonoB L = true) (arg : Argument) (s : SState) (hr : Reach L arg s)
+    (r : RuleId) (st : Step) (hleg : Ev.legal L s (.apply r st))
+    (hrows : ∀ k, r = .table k → ∀ rl, L.rule? k = some rl → rowOKB L k rl = true) :
+    ∃ s', stepEv L s (.apply r st) = some s' :=
+  progress_apply hmono (inv_reachable L arg s hr) hleg.2 hrows
+
 /-- what `SatMod` means, clause by clause, in terms of the saturation predicate of Ptx/Tab/Saturated.lean -/
 theorem satMod_unsaturated (L : LogicData) (b : Branch) (h : SatMod L b) :
     L.frameMissing b = [] ∧ L.identMissing b = [] ∧
@@ -325,6 +418,7 @@ def miniS : LogicData :=
     closure := [([], false), ([⟨false, none⟩], false), ([⟨true, none⟩], false), ([⟨false, none⟩, ⟨true, none⟩], true)] }
 
 example : searchSideB miniS = true := by decide
+example : closureMonoB miniS = true ∧ templatesOKB miniS = true := by decide
 
 /-- trunk `¬¬a ∧ □b` at world 0; Conjunction, DoubleNegation, Reflexive, Necessity applied (each an enabled target) -/
 def exTrunk : List Node := [.sent (.op2 .conj (.op1 .neg (.op1 .neg (.atom 0 0))) (.op1 .nec (.atom 1 0))) none (some 0)]
@@ -450,6 +544,12 @@ example : ∃ s, ReachN miniP argP 1 s := by
       (.apply (.table ⟨.op2 .conj, false, none⟩) (.rule 0 0 none none)) with
   | none => exact absurd hs (by decide)
   | some s' => exact ⟨s', ReachN.apply _ _ h0 ⟨by decide, by decide⟩ hs⟩
+
+/-- the quantifier layer by THEOREM along the first-order run above (and the run-time check agrees) -/
+example : InvQ miniS exState3 := by
+  have h0 : InvQ miniS (SState.init miniS exTrunk3) := invq_init miniS exTrunk3
+  have hi0 : Inv miniS (SState.init miniS exTrunk3) := inv_check_sound miniS _ (by decide)
+  exact invq_check_sound miniS exState3 (by decide)
 
 /-- the world-limit hypothesis is not idle: a state beyond the limit in which nothing has a target, no quit flag, and the
     branch is NOT saturated (Reflexive stops at the limit without a flag — known finding k2) -/
